@@ -16,6 +16,8 @@ any time stamps (equal, decreasing) — by induction over the history.
 -/
 import Rs1090.Proofs.Snapshot
 import Rs1090.Proofs.SnapshotView
+import Rs1090.Proofs.Pipeline
+import Rs1090.Props.C06
 namespace Rs1090.Props.C12
 open Rs1090.Model.Snapshot Rs1090.Spec.Snapshot Rs1090.Proofs.Snapshot
 
@@ -318,5 +320,181 @@ example : keys (runFrames [⟨10, fId, none⟩, ⟨11, f0, none⟩, ⟨12, fBad,
   decide +kernel
 
 end Frames
+
+/-! ## The pipeline stage "decode → decode_position → update_snapshot", from frames and time stamps alone
+
+`runPipeline g dist reference h` (Model/Pipeline.lean) is the loop of jet1090's `main` on a history of
+receptions `Rcv` = (time stamp, frame bytes) — nothing else: every frame is decoded by the decoder model;
+when it is a DF17/DF18 BDS 0,5 / 0,6 message the call `decode_position(me, timestamp, aa, aircraft, reference,
+None)` is C06's model `CprState.decodePosition` on the aircraft map threaded through the loop (`cprReportOf`
+extracts parity, `lat_cpr`, `lon_cpr` from the decoded JSON and the cache key from the AA field); the position
+attached (exact rationals, as canonical text) is the `pos` input of C12's view `recordOfFrame`; then `update`.
+`dist` stands for `dist_haversine` and `g` for the windows and gates (the driver runs `Gates.source`): all
+statements are for every `dist`, `g`, receiver reference and history.
+
+`pipeline_eq_runFrames` factors the loop into "positions by C06's batch model `decodePositions`" followed by
+"C12's frame-level table `runFrames`" (`annotate`), so every `frames_*` theorem above — proved for EVERY position
+input — applies.  Non-interference needs more: that the positions attached to `k`'s receptions do not depend on
+the other aircraft — C06's `noninterference` — and that the two models mean the same aircraft by "own":
+`cpr_address_compat` / `same_aircraft_iff`. -/
+
+section Pipeline
+open Rs1090 Rs1090.Model Rs1090.Model.Message Rs1090.Model.SnapshotView Rs1090.Proofs.SnapshotView
+open Rs1090.Model.Cpr Rs1090.Model.CprState Rs1090.Model.Pipeline Rs1090.Proofs.Pipeline
+
+/-- **The loop is the composition of the two models**: the table after the history = C12's frame-level
+    table of the receptions annotated with the positions that C06's `decodePositions` (fixed reference,
+    `update_reference = None`) attaches to the history's `decode_position` calls, in order. -/
+theorem pipeline_eq_runFrames (g : Gates) (dist : Pos → Pos → Rat) (reference : Option Pos) (h : List Rcv) :
+    runPipeline g dist reference h = runFrames (annotate g dist reference h) :=
+  runPipeline_eq g dist reference h
+
+/-- the annotation changes neither the frames, nor their order, nor the time stamps (`timestamp as u64`) -/
+theorem annotate_forget (g : Gates) (dist : Pos → Pos → Rat) (reference : Option Pos) (h : List Rcv) :
+    (annotate g dist reference h).map (fun y => (y.ts, y.frame)) = h.map (fun x => (tsU64 x.t, x.frame)) :=
+  attach_forget h _
+
+/-- **Address-extraction compatibility of the two models.**  When the loop calls `decode_position` for a
+    reception (`cprReportOf t f = some r`), the cache key `r.addr` is the 24-bit AA field of the frame
+    (bits 8..32), and the key under which the table model files the same frame — the text of the `icao24`
+    member of the decoded JSON — is that number as six hex digits. -/
+theorem cpr_address_compat (t : Rat) (f : List Nat) (r : Report) (h : cprReportOf t f = some r) :
+    r.ts = t ∧ r.addr = bitsBE f 8 24 ∧ r.addr < 2 ^ 24 ∧ ShowsIcao24 f (hex6 r.addr) := by
+  obtain ⟨h1, h2, h3, h4⟩ := cprReportOf_addr t f r h
+  exact ⟨h1, h2, h3, (showsIcao24_iff _ _).mpr h4⟩
+
+/-- … hence "same aircraft" means the same in both: two position receptions use the same CPR cache entry
+    iff the table files them under the same key -/
+theorem same_aircraft_iff (t₁ t₂ : Rat) (f₁ f₂ : List Nat) (r₁ r₂ : Report)
+    (h₁ : cprReportOf t₁ f₁ = some r₁) (h₂ : cprReportOf t₂ f₂ = some r₂) :
+    r₁.addr = r₂.addr ↔ icao24Of f₁ = icao24Of f₂ :=
+  same_address_iff t₁ t₂ f₁ f₂ r₁ r₂ h₁ h₂
+
+variable (g : Gates) (dist : Pos → Pos → Rat) (reference : Option Pos)
+
+/-- **Keys are the addresses the frames show** — `k` has an entry iff some frame of the history decodes to
+    JSON whose `icao24` member is `k`; that entry is filed under its own `icao24`. -/
+theorem pipeline_keys_are_addresses (k : Addr) (h : List Rcv) :
+    ((entryOf k (runPipeline g dist reference h)).isSome ↔ ∃ x, x ∈ h ∧ ShowsIcao24 x.frame k) ∧
+    (∀ e, entryOf k (runPipeline g dist reference h) = some e → e.icao24 = k) := by
+  rw [pipeline_eq_runFrames]
+  obtain ⟨h1, h2⟩ := frames_keys_are_addresses k (annotate g dist reference h)
+  exact ⟨h1.trans (exists_frame_iff (fun f => ShowsIcao24 f k) h _), h2⟩
+
+/-- … one entry per address … -/
+theorem pipeline_one_entry_per_address (h : List Rcv) : (keys (runPipeline g dist reference h)).Nodup := by
+  rw [pipeline_eq_runFrames]; exact frames_one_entry_per_address _
+
+/-- **Message count** = number of receptions whose frame shows `k`. -/
+theorem pipeline_count_eq (k : Addr) (h : List Rcv) (e : Entry)
+    (he : entryOf k (runPipeline g dist reference h) = some e) : e.count = (ownRcv k h).length := by
+  rw [pipeline_eq_runFrames] at he
+  rw [frames_count_eq k _ e he]
+  have := congrArg List.length (ownFrames_attach_forget k h
+    (decodePositions g dist none reference (reportsOf h)))
+  simpa [annotate] using this
+
+/-- **First / last seen** are the time stamps (`timestamp as u64`) of the first and of the last received of
+    the receptions whose frame shows `k`. -/
+theorem pipeline_first_last_seen (k : Addr) (h : List Rcv) (e : Entry)
+    (he : entryOf k (runPipeline g dist reference h) = some e) :
+    (ownRcv k h).head?.map (fun x => tsU64 x.t) = some e.firstseen ∧
+    (ownRcv k h).getLast?.map (fun x => tsU64 x.t) = some e.lastseen := by
+  rw [pipeline_eq_runFrames] at he
+  obtain ⟨h1, h2⟩ := frames_first_last_seen k _ e he
+  have hf := congrArg (List.map Prod.fst) (ownFrames_attach_forget k h
+    (decodePositions g dist none reference (reportsOf h)))
+  simp only [List.map_map, Function.comp_def] at hf
+  have e1 := congrArg List.head? hf
+  have e2 := congrArg List.getLast? hf
+  rw [List.head?_map, List.head?_map] at e1
+  rw [List.getLast?_map, List.getLast?_map] at e2
+  exact ⟨e1.symm.trans h1, e2.symm.trans h2⟩
+
+/-- **Non-interference of the whole stage** (fixed receiver reference).  The entry of aircraft `k` after
+    any interleaving of receptions — positions included — is the entry after `k`'s own receptions alone.
+    Two ingredients: C12's `frames_noninterference` (the table) and C06's `noninterference`
+    (`noninterference_from`: the positions `decode_position` attaches to an aircraft's reports do not depend
+    on the other aircraft), glued by the address compatibility of the two models (`exists_cpr_address`,
+    from `cpr_address_compat` and the injectivity of the six-hex-digit text). -/
+theorem pipeline_noninterference (k : Addr) (h : List Rcv) :
+    entryOf k (runPipeline g dist reference h) = entryOf k (runPipeline g dist reference (ownRcv k h)) := by
+  obtain ⟨A, hA⟩ := exists_cpr_address k
+  rw [pipeline_eq_runFrames, pipeline_eq_runFrames, frames_noninterference k (annotate g dist reference h),
+    ownFrames_annotate g dist reference k A hA h
+      (Rs1090.Props.C06.noninterference_from g dist A (reportsOf h) _ _ rfl rfl)]
+
+/-- … hence two histories with the same receptions of `k` agree on `k`'s entry, positions included. -/
+theorem pipeline_noninterference' (k : Addr) (h₁ h₂ : List Rcv) (h : ownRcv k h₁ = ownRcv k h₂) :
+    entryOf k (runPipeline g dist reference h₁) = entryOf k (runPipeline g dist reference h₂) := by
+  rw [pipeline_noninterference g dist reference k h₁, pipeline_noninterference g dist reference k h₂, h]
+
+/-- **Provenance**: a value the entry of `k` holds for quantity `f` is carried, for that quantity, by the
+    record of one of `k`'s OWN receptions — annotated with the positions the position decoder gives when it is
+    run on `k`'s own receptions alone. -/
+theorem pipeline_provenance (k : Addr) (h : List Rcv) (e : Entry)
+    (he : entryOf k (runPipeline g dist reference h) = some e) (f : Field) (v : Val) (hv : entryField e f = some v) :
+    ∃ y, y ∈ annotate g dist reference (ownRcv k h) ∧ ShowsIcao24 y.frame k ∧ v ∈ carried y.record f := by
+  rw [pipeline_noninterference, pipeline_eq_runFrames] at he
+  exact frames_provenance k _ e he f v hv
+
+/-- **Position provenance**: the latitude (longitude) the entry of `k` holds is the canonical text of the
+    latitude (longitude) of a position that C06's `decode_positions` model, run on the `decode_position` calls
+    of `k`'s own receptions alone, attaches to one of them.  (With C06's `sound_partial` that position is the
+    CPR lattice point of the report it is attached to, under the kinematic hypotheses stated there.) -/
+theorem pipeline_position_provenance (k : Addr) (h : List Rcv) (e : Entry)
+    (he : entryOf k (runPipeline g dist reference h) = some e) :
+    (∀ v, e.latitude = some v →
+      ∃ p, some p ∈ decodePositions g dist none reference (reportsOf (ownRcv k h)) ∧ v = ratText p.lat) ∧
+    (∀ v, e.longitude = some v →
+      ∃ p, some p ∈ decodePositions g dist none reference (reportsOf (ownRcv k h)) ∧ v = ratText p.lon) := by
+  constructor
+  · intro v hv
+    obtain ⟨y, hy, _, hc⟩ := pipeline_provenance g dist reference k h e he .latitude v hv
+    have hp := record_lat y v hc
+    cases hq : y.pos with
+    | none => rw [hq] at hp; cases hp
+    | some q =>
+      rw [hq] at hp
+      obtain ⟨p, hmem, rfl⟩ := mem_attach_pos _ _ y q hy hq
+      exact ⟨p, hmem, (Option.some.inj hp).symm⟩
+  · intro v hv
+    obtain ⟨y, hy, _, hc⟩ := pipeline_provenance g dist reference k h e he .longitude v hv
+    have hp := record_lon y v hc
+    cases hq : y.pos with
+    | none => rw [hq] at hp; cases hp
+    | some q =>
+      rw [hq] at hp
+      obtain ⟨p, hmem, rfl⟩ := mem_attach_pos _ _ y q hy hq
+      exact ⟨p, hmem, (Option.some.inj hp).symm⟩
+
+/-- on frames of exactly the announced length — what receivers deliver — `Message::from_bytes` (what jet1090
+    calls) and `Message::try_from` (what the model's decoder is) are the same function -/
+theorem pipeline_decoder_entry_point (bs : List Nat) (h : bs.length = frameBits (bs.headD 0) / 8) :
+    fromBytes bs = tryFrom bs :=
+  fromBytes_eq_tryFrom bs h
+
+/-! ### non-vacuity: a real even/odd pair (`8D40058B58C901375147EFD09357`, `8D40058B58C904A87F402D3B8C59`) -/
+
+private def fEven : List Nat := [0x8D,0x40,0x05,0x8B,0x58,0xC9,0x01,0x37,0x51,0x47,0xEF,0xD0,0x93,0x57]
+private def fOdd : List Nat := [0x8D,0x40,0x05,0x8B,0x58,0xC9,0x04,0xA8,0x7F,0x40,0x2D,0x3B,0x8C,0x59]
+/-- a distance function for the examples (the theorems hold for every one) -/
+private def dist0 : Pos → Pos → Rat := fun _ _ => 0
+
+/-- the loop makes a `decode_position` call for the frame: address 0x40058B, even, the two CPR fields -/
+example : cprReportOf 1 fEven = some { ts := 1, addr := 0x40058B, kind := .airborne, msg := ⟨.even, 39848, 83951⟩ } := by
+  decide +kernel
+/-- 0.5 s apart: the pair decodes, the entry holds the position; an identification of another aircraft in
+    between changes nothing for 40058b -/
+example : (entryOf "40058b" (runPipeline Gates.source dist0 none [⟨1, fEven⟩, ⟨5/4, fId⟩, ⟨3/2, fOdd⟩])).map
+    (fun e => (e.count, e.firstseen, e.lastseen, e.latitude, e.longitude))
+      = some (2, 1, 1, some "49.817551435", some "6.084421519") := by
+  decide +kernel
+/-- exactly 10 s apart: outside the pairing window, no position -/
+example : (entryOf "40058b" (runPipeline Gates.source dist0 none [⟨1, fEven⟩, ⟨11, fOdd⟩])).map
+    (fun e => (e.count, e.lastseen, e.latitude)) = some (2, 11, none) := by
+  decide +kernel
+
+end Pipeline
 
 end Rs1090.Props.C12
